@@ -1,12 +1,141 @@
 import FatVerif.Model.Util
 import FatVerif.Model.Basic
-/-! pure-probe driver for suite `Bpb` — STUB, to be replaced (see /verif/ARCH.md). -/
+import FatVerif.Model.UInt
+import FatVerif.Model.Bpb
+import FatVerif.Spec.Geometry
+/-! pure-probe driver for suite `bpb` (see /verif/ARCH.md).
+
+```
+P bpb.probe <bs-hex512> <strict> => <fat_bits> <bytes_per_sector> <cluster_size> <total_clusters>
+      <first_data_sector> <root_dir_sectors> <sectors_per_fat> <reserved_sectors> <fats> <total_sectors>
+      <mirroring> <active_fat> <root_dir_first_cluster> <fs_info_sector> <backup_boot_sector>
+      <status_dirty> <status_io_error>                      | ERR <code> | PANIC
+P bpb.mount <bs-hex512> <fsinfo-hex512> <strict> => ok <fat_bits> <cluster_size> <total_clusters> <free|none>
+                                                            | ERR <code> | PANIC
+```
+`bpb.probe` is `fatfs::verif::bpb_probe`. `bpb.mount` is the real `FileSystem::new` on a device whose first 512
+bytes are the boot sector and whose every other 512-byte block is the FS-info sector (so the FS-info read lands on
+`fsinfo` wherever `fs_info_sector * bytes_per_sector ≠ 0` points, and on the boot sector itself when it is 0);
+`free` is the cached free-cluster count after mounting (observed through `stats()` with device reads disabled). -/
 namespace FatVerif.BpbDriver
+open FatVerif.Util
 
-def handle (_fn : String) (_args : List String) : Option String := none
+def showErr (e : Err) : String :=
+  match e with
+  | .panic => "PANIC"
+  | .hang => "HANG"
+  | e => s!"ERR {e.code}"
 
-def oracle (_fn : String) (_args : List String) (_implOut : List String) : Option String := none
+def showGeometry (g : Geometry) : String :=
+  " ".intercalate
+    [toString g.fatType.bits, toString g.bytesPerSector, toString g.clusterSize, toString g.totalClusters,
+     toString g.firstDataSector, toString g.rootDirSectors, toString g.sectorsPerFat,
+     toString g.reservedSectors, toString g.fats, toString g.totalSectors, showBool g.mirroring,
+     toString g.activeFat, toString g.rootDirFirstCluster, toString g.fsInfoSector,
+     toString g.backupBootSector, showBool g.statusDirty, showBool g.statusIoError]
 
-def branch (_fn : String) (_args : List String) : String := "-"
+/-- what `stats()` answers once device I/O is switched off: the cached free count; with no cached count it scans the
+    FAT, which fails on the first read, except that a volume without clusters has nothing to scan and yields 0 -/
+def observedFree (m : Mounted) : Option Nat :=
+  match m.fsInfo.freeClusterCount with
+  | some n => some n
+  | none => if m.geo.totalClusters = 0 then some 0 else none
+
+def showMounted (m : Mounted) : String :=
+  s!"ok {m.geo.fatType.bits} {m.geo.clusterSize} {m.geo.totalClusters} {showOptNat (observedFree m)}"
+
+def hexNib (c : UInt8) : Nat :=
+  if 48 ≤ c && c ≤ 57 then c.toNat - 48
+  else if 97 ≤ c && c ≤ 102 then c.toNat - 87
+  else if 65 ≤ c && c ≤ 70 then c.toNat - 55
+  else 255
+
+/-- bytes `0 … i-1` of the hex string `a`, consed in front of `acc` -/
+def sectorLoop (a : ByteArray) : Nat → List Nat → Option (List Nat)
+  | 0, acc => some acc
+  | i + 1, acc =>
+    let hi := hexNib (a.get! (2 * i))
+    let lo := hexNib (a.get! (2 * i + 1))
+    if hi > 15 || lo > 15 then none else sectorLoop a i ((hi * 16 + lo) :: acc)
+
+/-- a 512-byte sector from its 1024 hex digits (fast path; `Util.bytesOfHex` is too slow for 150 000 sectors) -/
+def sector? (s : String) : Option (List Nat) :=
+  let a := s.toUTF8
+  if a.size = 1024 then sectorLoop a 512 [] else none
+
+def handle (fn : String) (args : List String) : Option String :=
+  match fn, args with
+  | "bpb.probe", [hex, strict] =>
+    match sector? hex, boolOf strict with
+    | some b, some st =>
+      match probe b st with
+      | .ok g => some (showGeometry g)
+      | .error e => some (showErr e)
+    | _, _ => none
+  | "bpb.mount", [hex, fhex, strict] =>
+    match sector? hex, sector? fhex, boolOf strict with
+    | some b, some f, some st =>
+      match mountGeometry b f st with
+      | .ok m => some (showMounted m)
+      | .error e => some (showErr e)
+    | _, _, _ => none
+  | _, _ => none
+
+/-- (fat bits, cluster size, total clusters) reported by the implementation, if it accepted the volume -/
+def acceptedGeometry (fn : String) (implOut : List String) : Option (Nat × Nat × Nat) :=
+  match fn, implOut with
+  | "bpb.probe", bits :: _bps :: cs :: total :: _ =>
+    match natOf bits, natOf cs, natOf total with
+    | some a, some b, some c => some (a, b, c)
+    | _, _, _ => none
+  | "bpb.mount", "ok" :: bits :: cs :: total :: _ =>
+    match natOf bits, natOf cs, natOf total with
+    | some a, some b, some c => some (a, b, c)
+    | _, _, _ => none
+  | _, _ => none
+
+/-- C07 evaluated on the IMPLEMENTATION's answer, with the independent specification `GeoSpec` only -/
+def oracle (fn : String) (args : List String) (implOut : List String) : Option String :=
+  if fn ≠ "bpb.probe" ∧ fn ≠ "bpb.mount" then none else
+  match args.head?.bind sector? with
+  | none => none
+  | some b =>
+    if implOut = ["PANIC"] then some s!"C07 mount-panic {GeoSpec.wrapClass b}"
+    else if implOut = ["HANG"] then some "C07 mount-hang -"
+    else match acceptedGeometry fn implOut with
+      | none => none          -- an error result: always allowed
+      | some (bits, cs, total) =>
+        match GeoSpec.firstFailing b with
+        | some c => some s!"C07 accepted-incoherent {c.name}"
+        | none =>
+          let (ft, scs, stotal) := GeoSpec.specGeometry b
+          if ft.bits = bits ∧ scs = cs ∧ stotal = total then none
+          else some s!"C07 geometry-differs impl={bits}/{cs}/{total},spec={ft.bits}/{scs}/{stotal}"
+
+def branch (fn : String) (args : List String) : String :=
+  match args.head?.bind sector? with
+  | none => "malformed"
+  | some b =>
+    let layout := if (Bpb.deserialize b).isFat32 then "L32" else "L1x"
+    let st := (args.getLast?.bind boolOf).getD true
+    let r : String :=
+      match fn with
+      | "bpb.mount" =>
+        (match args with
+         | [_, fhex, _] =>
+           match sector? fhex with
+           | some f =>
+             (match mountGeometry b f st with
+              | .ok m => s!"ok{m.geo.fatType.bits}" ++ (if m.fsInfo.freeClusterCount.isSome then "+free" else "")
+              | .error .panic => "panic"
+              | .error _ => "err")
+           | none => "malformed"
+         | _ => "malformed")
+      | _ =>
+        match probe b st with
+        | .ok g => s!"ok{g.fatType.bits}"
+        | .error .panic => "panic-" ++ GeoSpec.wrapClass b
+        | .error _ => "err"
+    layout ++ "/" ++ r
 
 end FatVerif.BpbDriver
